@@ -95,6 +95,17 @@ func (s *Stream) Writes() [][]byte {
 // ShortWrites makes every Write accept at most n octets and fail with io.ErrShortWrite.
 func (s *Stream) ShortWrites(n int) { s.shortWrite = n }
 
+// Drain returns (and consumes) whatever is buffered for reading on this end, without blocking.
+func (s *Stream) Drain() []byte {
+	h := s.rd
+	h.mu.Lock()
+	defer h.mu.Unlock()
+	b := h.buf
+	h.buf = nil
+	h.delivered += len(b)
+	return b
+}
+
 // Closes returns how often Close was called on this end.
 func (s *Stream) Closes() int { return int(s.closes.Load()) }
 
@@ -378,6 +389,18 @@ func (p *PacketConn) Sent(to net.Addr, d time.Duration) ([]byte, bool) {
 		}
 		p.outCond.Wait()
 	}
+}
+
+// TakeSent returns (and consumes) the datagrams written to addr so far, without blocking.
+func (p *PacketConn) TakeSent(to net.Addr) [][]byte {
+	p.mu.Lock()
+	defer p.mu.Unlock()
+	var out [][]byte
+	for _, d := range p.out[to.String()] {
+		out = append(out, d.Data)
+	}
+	delete(p.out, to.String())
+	return out
 }
 
 // Pending reports the number of datagrams not yet read by the socket's owner.
